@@ -50,12 +50,16 @@ namespace sim
   };
   inline boost::system::error_category const& sim_ssl_category() { static sim_ssl_category_t c; return c; }
 
-  struct aborted_completion { int id; char kind; std::function<void()> run; };
+  // a completion of an operation cancelled by close(): normally delivered with operation_aborted (run()), but an
+  // operation that had already completed when close() was called keeps its own result (late(ec))
+  struct aborted_completion { int id; char kind; std::function<void()> run; std::function<void(boost::system::error_code)> late; };
 
   struct world
   {
     int next_id{0};
     bool next_endpoint_throws{false};
+    bool next_is_client{false};                // the next adaptor is a client's: its socket starts unopened
+    bool resolve_fails{false};                 // the next connect() finds no endpoint
     std::map<int, void*> live;                 // id -> adaptor (type erased)
     std::vector<std::string> log;
     std::deque<aborted_completion> aborted;    // completions of operations cancelled by close()
@@ -87,7 +91,7 @@ namespace sim
   public:
     int id_;
     fake_socket socket_;
-    bool closed_{false};
+    bool open_{true};
     // pending operations
     bool read_pending_{false};
     boost::asio::mutable_buffer read_buf_;
@@ -100,12 +104,16 @@ namespace sim
     via::comms::ErrorHandler handshake_handler_;
     bool shutdown_pending_{false};
     via::comms::CommsHandler shutdown_handler_;
+    bool connect_pending_{false};
+    via::comms::ConnectHandler connect_handler_;
 
   protected:
     explicit adaptor(boost::asio::ip::tcp::socket) : id_(++the_world()->next_id)
     {
       socket_.throws = the_world()->next_endpoint_throws;
       the_world()->next_endpoint_throws = false;
+      open_ = !the_world()->next_is_client;
+      the_world()->next_is_client = false;
       the_world()->live[id_] = this;
     }
 
@@ -172,27 +180,45 @@ namespace sim
       world* w = the_world();
       if (read_pending_)
       { auto h = read_handler_; read_pending_ = false;
-        w->aborted.push_back({id_, 'r', [h]() { h(boost::asio::error::operation_aborted, 0); }}); }
+        w->aborted.push_back({id_, 'r', [h]() { h(boost::asio::error::operation_aborted, 0); }, [h](boost::system::error_code ec) { h(ec, 0); }}); }
       if (write_pending_)
       { auto h = write_handler_; write_pending_ = false;
-        w->aborted.push_back({id_, 'w', [h]() { h(boost::asio::error::operation_aborted, 0); }}); }
+        w->aborted.push_back({id_, 'w', [h]() { h(boost::asio::error::operation_aborted, 0); }, [h](boost::system::error_code ec) { h(ec, 0); }}); }
       if (why == 'c')
       {
+        if (connect_pending_)
+        { auto h = connect_handler_; connect_pending_ = false;
+          w->aborted.push_back({id_, 'n', [h]() { h(boost::asio::error::operation_aborted, boost::asio::ip::tcp::endpoint()); },
+                                [h](boost::system::error_code ec) { h(ec, boost::asio::ip::tcp::endpoint()); }}); }
         if (handshake_pending_)
         { auto h = handshake_handler_; handshake_pending_ = false;
-          w->aborted.push_back({id_, 'h', [h]() { h(boost::asio::error::operation_aborted); }}); }
+          w->aborted.push_back({id_, 'h', [h]() { h(boost::asio::error::operation_aborted); }, [h](boost::system::error_code ec) { h(ec); }}); }
         if (shutdown_pending_)
         { auto h = shutdown_handler_; shutdown_pending_ = false;
-          w->aborted.push_back({id_, 's', [h]() { h(boost::asio::error::operation_aborted, 0); }}); }
+          w->aborted.push_back({id_, 's', [h]() { h(boost::asio::error::operation_aborted, 0); }, [h](boost::system::error_code ec) { h(ec, 0); }}); }
       }
     }
 
+    // tcp_adaptor::close / ssl_tcp_adaptor::close: if (socket.is_open()) socket.close()
     void close()
     {
-      if (closed_) return;
-      closed_ = true;
+      if (!open_) return;
+      open_ = false;
       the_world()->say(id_, "close");
       cancel_pending('c');
+    }
+
+    // tcp_adaptor::connect: resolve, then asio::async_connect over the endpoints, which closes the socket if
+    // it is open and opens it again for the attempt
+    bool connect(boost::asio::io_context&, const char* host_name, const char* port_name,
+                 via::comms::ConnectHandler h)
+    {
+      if (the_world()->resolve_fails) { the_world()->resolve_fails = false; the_world()->say(id_, "resolve-failed"); return false; }
+      if (open_) { the_world()->say(id_, "reopen"); cancel_pending('c'); }
+      open_ = true;
+      connect_pending_ = true; connect_handler_ = h;
+      the_world()->say(id_, std::string("connect=") + host_name + ":" + port_name);
+      return true;
     }
 
     void start(via::comms::ErrorHandler handshake_handler)
